@@ -84,6 +84,25 @@ Definition fshift1 (p : list C) (x : list C) : option (list C) :=
 Definition roll_list (m : Z) (x : list C) : list C :=
   map (roll_fun m (nthC x)) (seq 0 n).
 
+(* The frequency-domain entry point  fshift(W, s, ns=n)  with a COMPLEX W (an rfft
+   half spectrum): do_fft is False, the code only does  W *= phase  and returns W
+   (in place: the argument itself is modified - aliasing is not modelled).
+   None = shapes that do not broadcast / n < 2. *)
+Definition rfft_list (x : list C) : list C := map (rfft_at (nthC x)) (seq 0 (n / 2 + 1)).
+Definition spec_mul (p W : list C) : list C :=
+  map (fun k => cmul (nthC W k) (nthC p k)) (seq 0 (n / 2 + 1)).
+Definition irfft_list (Y : list C) : list C := map (irfft_at (nthC Y)) (seq 0 n).
+Definition fshift_freq (p W : list C) : option (list C) :=
+  if ((2 <=? n) && (length W =? n / 2 + 1) && (length p =? n / 2 + 1))%nat
+  then Some (spec_mul p W) else None.
+
+(* waveforms.get_apf_from2spikes: C = rfft(spike) * conj(rfft(spike2)) (amp = |C|,
+   phase = unwrap(angle(C)) are taken from it) *)
+Definition cross_spectrum_at (x y : nat -> C) (k : nat) : C :=
+  cmul (rfft_at x k) (cconj (rfft_at y k)).
+Definition cross_spectrum (x y : list C) : list C :=
+  map (cross_spectrum_at (nthC x) (nthC y)) (seq 0 (n / 2 + 1)).
+
 (* traces along the last axis: row i is shifted with its own phase table ps[i] *)
 Fixpoint fshift_rows (ps : list (list C)) (X : list (list C)) : option (list (list C)) :=
   match ps, X with
